@@ -576,7 +576,7 @@ static json tree_entry(const json &e) {
   std::string p = SS(e, "p");
   json r = json::object();
   if (p.compare(0, g_root.size(), g_root) != 0 || (p.size() > g_root.size() && p[g_root.size()] != '/')) { r["err"] = "outside sandbox"; return r; }
-  if (t == "d") { mkdirs(p); }
+  if (t == "d") { mkdirs(p); if (e.contains("mode")) chmod(p.c_str(), (mode_t)I(e, "mode")); }
   else if (t == "f") { if (!write_file(p, SS(e, "c"))) r["err"] = errno; if (e.contains("mode")) chmod(p.c_str(), (mode_t)I(e, "mode")); }
   else if (t == "l") { size_t sl = p.rfind('/'); if (sl != std::string::npos && sl > 0) mkdirs(p.substr(0, sl)); unlink(p.c_str()); if (symlink(SS(e, "to").c_str(), p.c_str())) r["err"] = errno; }
   if (e.contains("uid") || e.contains("gid")) {
@@ -843,8 +843,10 @@ static json exec_op(TaskCtx *t, const json &op) {
     bool def = op.contains("def");
     econf_err rc = ECONF_ERROR;
 #define GETNUM(NAME, CT, DEFEXPR) \
-    if (ty == #NAME) { CT v = (CT)0x5a; { LibCall L; rc = def ? econf_get##NAME##ValueDef(kf, group.c(), key.c(), &v, DEFEXPR) : econf_get##NAME##Value(kf, group.c(), key.c(), &v); } \
-      r["rc"] = (int)rc; if (rc == ECONF_SUCCESS || (def && rc == ECONF_NOKEY)) r["v"] = num_json(v); }
+    if (ty == #NAME) { CT v = (CT)0x5a; if (def && DEFEXPR == v) v = (CT)0; const CT v0 = v; \
+      { LibCall L; rc = def ? econf_get##NAME##ValueDef(kf, group.c(), key.c(), &v, DEFEXPR) : econf_get##NAME##Value(kf, group.c(), key.c(), &v); } \
+      r["rc"] = (int)rc; if (rc == ECONF_SUCCESS || (def && rc == ECONF_NOKEY)) r["v"] = num_json(v); \
+      else if (memcmp(&v, &v0, sizeof v) != 0) { r["out_changed"] = true; if (def) { CT dv = DEFEXPR; if (memcmp(&v, &dv, sizeof v) == 0) r["out_is_default"] = true; } } }
     GETNUM(Int, int32_t, (int32_t)I(op, "def"))
     GETNUM(Int64, int64_t, (int64_t)I(op, "def"))
     GETNUM(UInt, uint32_t, (uint32_t)op["def"].get<uint64_t>())
@@ -965,6 +967,9 @@ static json exec_op(TaskCtx *t, const json &op) {
     rl.rlim_cur = (rlim_t)(count_fds() + I(op, "extra", 8));
     if (rl.rlim_cur > rl.rlim_max) rl.rlim_cur = rl.rlim_max;
     r["rc"] = setrlimit(RLIMIT_NOFILE, &rl) ? errno : 0; r["limit"] = (long long)rl.rlim_cur; R.fired["fd_budget"]++;
+  } else if (o == "rmcwd") {
+    // environment: the working directory of the process is removed under it (relative names that start with ".." still resolve)
+    r["rc"] = (!g_cwd.empty() && rmdir(g_cwd.c_str()) == 0) ? 0 : errno; R.fired["env_rmcwd"]++;
   } else if (o == "chdir") {
     // environment: the application changes its working directory between two calls
     std::string d = SS(op, "path"); mkdirs(d);
